@@ -761,10 +761,12 @@ def rule_R5(P, rep):
 
 def rule_R6(P, rep):
     def kind(F, a):
-        fo = F.field_of(a)
-        if not fo:
+        # through pointer temporaries: the canonical value names the sub-object (`&ABTI_xstream::mem_pool_desc`)
+        t = canon.expr(F, a)
+        if "::" not in t:
             return None
-        return "stack" if "stack" in fo[1] else ("desc" if "desc" in fo[1] else fo[1])
+        f = t.rsplit("::", 1)[1]
+        return "stack" if "stack" in f else ("desc" if "desc" in f else f)
     n = 0
     for F in sorted(P.functions.values(), key=lambda f: (f.file, f.line)):
         for _b, i in F.calls("ABTI_mem_pool_init_local_pool"):
